@@ -347,6 +347,13 @@ def run_spec(case, ctx):
     startable = spec['acyclic']
     if startable and case.get('start_after_finalize'):
         res = {}
+        # references by name created AFTER the explicit finalize() (events and filters are not
+        # blocks, creating them is allowed): they must be resolved when the simulation starts
+        sname = next((n for n, b in created.items() if isinstance(b, edzed.SBlock)), None)
+        late = {}
+        if sname is not None:
+            late['ev'] = edzed.Event(sname, 'vf_late')
+            late['flt'] = edzed.IfOutput(sname)
 
         async def main(loop):
             sim = harness.Sim()
@@ -355,6 +362,20 @@ def run_spec(case, ctx):
             res['err'] = sim.init_exc
             if ok:
                 check_structure(spec, circuit, created, evreg, ctx, 'after finalize() + start')
+                if late:
+                    ctx.count('late_references_checked')
+                    try:
+                        dest = late['ev'].dest
+                    except Exception as err:    # pylint: disable=broad-except
+                        raise core.Violation(
+                            'late-reference-unresolved-after-start',
+                            f"Event({sname!r}) created after an explicit finalize(): .dest raises "
+                            f"{err!r} in the running circuit") from None
+                    if dest is not created[sname] or late['flt']._ctrl_blk is not created[sname]:
+                        raise core.Violation(
+                            'late-reference-unresolved-after-start',
+                            f"references to {sname!r} created after an explicit finalize() resolved "
+                            f"to {dest!r} / {late['flt']._ctrl_blk!r}")
             await sim.stop()
         _, _, exc = vloop.run(main)
         if isinstance(exc, core.Violation):
